@@ -1,4 +1,5 @@
 import ScrapliModel.Channel.Chan
+import ScrapliModel.Channel.Drv
 import ScrapliModel.Channel.Rx
 import ScrapliProps.C01Platform
 open Scrapli Scrapli.Chan
@@ -14,7 +15,8 @@ open Scrapli Scrapli.Chan
   device = scripted: the i-th write call is answered with the i-th entry of the output list
   (what the real device printed after the real i-th write) — trace refinement.
   reply: per op `gp=<hex>` | `si=<raw>,<processed>` | `ii=<raw>,<processed>` | `stall`, joined by `;`,
-  then ` W=<writes hexlist> A=<unread hex> H=<held-back hex>` (`sar=<raw>,<processed>` for the timed op).
+  then ` W=<writes hexlist> A=<unread hex> H=<held-back hex>` (`sar=<raw>,<processed>` for the timed op;
+  `sc:<strip><stop>:<failed_when_contains hexlist>:<commands hexlist>` -> `sc=<result>/<failed 0|1>,…` for the driver-level send_commands).
   `dev <prompt> <trail> <cmd=out|…> <writes hexlist>` -> what `LineDev.onWrite` prints for each write;
   `linep iosxe <hex>` -> the line predicate of ScrapliProps/C01Platform.lean;  `ansi <hex>` -> chanRead of one chunk;  `ansih <held hex> <chunk hex>` -> chanReadH (output, held);  `prb <depth> <hex>` -> processReadBuf. -/
 
@@ -63,6 +65,16 @@ def runOp (cfg : Cfg) (dev : Nat → Bytes → Nat × Bytes) (op : String) (s : 
     | some events, some complete =>
       (sendInputsInteract cfg dev events complete s).map
         (fun r => (s!"ii={Hex.encode r.1.1},{Hex.encode r.1.2}", r.2))
+    | _, _ => none
+  | ["sc", fl, fwc, cmds] =>
+    -- the driver layer: `send_commands(commands, strip_prompt, failed_when_contains, stop_on_failed)`; reply result/failed per response
+    match Hex.decodeList fwc, Hex.decodeList cmds with
+    | some fwc, some cmds =>
+      match cmds.reverse with
+      | [] => none
+      | last :: ri =>
+        (sendCommands cfg dev (bit fl 0) fwc (bit fl 1) ri.reverse last s).map
+          (fun r => ("sc=" ++ ",".intercalate (r.1.map (fun x => s!"{Hex.encode x.result}/{if x.failed then "1" else "0"}")), r.2))
     | _, _ => none
   | ["sar", i, fl, outs, orx, pz] =>
     let outPat? : Option Pat :=
